@@ -258,6 +258,10 @@ for _r, _props in REFACTORINGS.items():
     # third pass (round B3: private renames, dispatch tables, context managers, value classes, computed constants)
     CORPUS.append({"name": f"refactoring-B3-{_r}", "props": ALL.split(","), "kind": "benign", "edits": [],
                    "diff": f"benign/B3-{_r}/refactor.diff"})
+    # fourth pass, stacked on the third (round B4: standard-library idioms - operator / itertools / functools, unpack_from,
+    # walrus, filter / map, next(.., default), asyncio spellings)
+    CORPUS.append({"name": f"refactoring-B4-{_r}", "props": ALL.split(","), "kind": "benign", "edits": [],
+                   "diff": f"benign/B4-{_r}/refactor.diff", "base": f"benign/B3-{_r}/refactor.diff"})
 
 # ---------------------------------------------------------------- the independently seeded breaking changes (seeded/<id>/patch.diff):
 # the target property's check must report each of them
